@@ -197,7 +197,17 @@ def document_clone(run: Run, stream):
             keep.extend(t.append_children(rng.choice(["  two   three ", " lead", "   ", "tail  end ", "x"]),
                                           rng.choice([tag("c", "x  y"), new_comment_node(" c "), new_processing_instruction_node("p", "d  d"), "\n  z"])))
     xml = str(d)
-    c = d.clone()
+    # cloning is an observation whose result does not depend on the caller's default filters (C08): the clone is made
+    # under the library defaults, with all node kinds visible, or with comments only (seeded C10-8)
+    import contextlib
+
+    from delb import is_comment_node
+
+    amb = rng.choice(["default", "none", "comments", "constructor-none"])
+    case["ambient"] = amb
+    with (contextlib.nullcontext() if amb == "default" else altered_default_filters(is_comment_node) if amb == "comments"
+          else altered_default_filters()):
+        c = Document(d.root) if amb == "constructor-none" else d.clone()
     ok = (
         [str(n) for n in c.prologue] == [str(n) for n in d.prologue]
         and [str(n) for n in c.epilogue] == [str(n) for n in d.epilogue]
